@@ -140,7 +140,10 @@ def lit_structured(rng, tier):
     out += ['0xAB5', '0xB8', '0xAB_CB64', '0xA_B5', '0xB_B8', '0x_B8', '0xaB16', '0xBB', '0xB_1', '12u8', '0b1u8', '7usize', '255u8', '1_000', '0xffu64', '0xABu8',
             '1.5f32', '2.5', '1e3', '"1_U8"', '"U8"', '"B8 and U16"', "'U'", "'B'", "b'B'", 'b"U8"', 'r"1_U8"', 'r#"B64"#', '"é U8"', 'true', '12B5', '0B8', '1B1', '2B1',
             '0b1B8', '0o7B8', '0o7_B3', '0b11_B2', '0b11_B1', '0U0', '0_U0', '1_U0', '0B0', '00_B0', '0x0_U0', '0x1_U0', '1U1', '2U1', '0x1U1', '0x2U1',
-            '1_U08', '1_U008', '255_U8', '256_U8', '0xff_U8', '0x100_U8', '1u64', '1_u8', '1U8', '1_B8', '1__U8', '0x__1__U8', '0x1_U0064']  # (`0XFF` is not a Rust token: upper-case prefixes are rejected by the lexer)
+            '1_U08', '1_U008', '255_U8', '256_U8', '0xff_U8', '0x100_U8', '1u64', '1_u8', '1U8', '1_B8', '1__U8', '0x__1__U8', '0x1_U0064',
+            # `0`, underscores, then a base letter: a DECIMAL literal for rustc ("Invalid character"), never a prefixed one
+            '0_x10U8', '0_x10_U8', '0__x1f_U16', '0_b101U8', '0_b101_U8', '0_o17_U8', '0__o7_U8', '0_b1_B8', '0_xff_B8', '00x1_U8', '0_0x1_U8',
+            '0_X10_U8', '1_x10_U8', '0_x_U8', '0_b_U8']  # (`0XFF` is not a Rust token: upper-case prefixes are rejected by the lexer)
     return out
 
 
@@ -171,6 +174,10 @@ def fast_random(rng):
         suf = rng.choice(['U', 'B', 'u', 'b', 'U_', 'UU', 'BU', 'UB', '_U_', 'U+', 'U-', 'U 8', 'U8_', 'U8u', 'U0x8', 'U18446744073709551616', 'B99999999999999999999',
                           'U18446744073709551615999', 'U٣', 'Ué', 'U1é', 'i32', 'u8', 'usize', 'U8U', 'U8B', 'B8U', 'U8U16', 'B8B8', 'U+8', 'U++8', 'U+', 'U-8'])
         return body + rng.choice(['', '_']) + suf + rng.choice(['', '8', '64', '0'])
+    if c == 5 and rng.random() < 0.5:
+        # `0`, underscores, then a base letter (x / o / b): a decimal literal with an invalid character
+        return '0' + '_' * rng.randrange(1, 3) + rng.choice('xob') + digits_str(rng, rand_bits(rng, 12), rng.choice([2, 8, 16])) + \
+            rng.choice(['', '_']) + rng.choice('UB') + str(rng.choice([8, 16, 64]))
     if c == 6:
         # hexadecimal + B
         s = digits_str(rng, rand_bits(rng, rng.randrange(1, 64)), 16)
